@@ -165,6 +165,40 @@ def check(ctx):
         if not ok:
             ctx.violation('C03.R3', rel, f, Model.qual(f), 'BIT STRING default comparison must ignore unused bits / trailing zero named bits on both sides', stmt='cleaned comparison')
 
+    # a transparent wrapper built around an arbitrary compiled type (the inner type object is a constructor argument and the value is handed to it
+    # unchanged) decides "equal to the DEFAULT" with the inner type's own is_default: the inner type may specialise the comparison (BIT STRING)
+    special = [c for rel in (BER, DER) for c in model.mod(rel).classes.values() if 'is_default' in c.methods and 'inner' not in ast.unparse(c.methods['is_default'])]
+    nwrap = 0
+    for rel in (BER, DER):
+        for c in model.mod(rel).classes.values():
+            init = c.methods.get('__init__')
+            if init is None:
+                continue
+            pn = flow.param_names(init)
+            attrs = [t.attr for a in walk_no_nested(init) if isinstance(a, ast.Assign) and isinstance(a.value, ast.Name) and a.value.id in pn[1:]
+                     for t in a.targets if isinstance(t, ast.Attribute) and isinstance(t.value, ast.Name) and t.value.id == 'self']
+            enc = c.find_method('encode_content') or c.find_method('encode')
+            if enc is None:
+                continue
+            handed = [a for a in attrs if any(isinstance(n, ast.Call) and isinstance(n.func, ast.Attribute) and n.func.attr in ('encode', 'encode_content')
+                                              and ast.unparse(n.func.value) == 'self.%s' % a and n.args and isinstance(n.args[0], ast.Name)
+                                              and n.args[0].id == flow.param_names(enc[1])[1] for n in walk_no_nested(enc[1]))]
+            if not handed:
+                continue
+            nwrap += 1
+            isd = c.find_method('is_default')
+            ok = not special or (isd is not None and any(isinstance(n, ast.Call) and isinstance(n.func, ast.Attribute) and n.func.attr == 'is_default'
+                                                         and ast.unparse(n.func.value) == 'self.%s' % handed[0] for n in walk_no_nested(isd[1])))
+            ctx.instance('C03.R3', '%s wraps self.%s: is_default decided by the wrapped type (%d specialised is_default in ber/der)' % (c.qname, handed[0], len(special)),
+                         'ok' if ok else 'VIOLATION', node=isd[1] if isd else c.node, file=rel)
+            if not ok:
+                ctx.violation('C03.R3', rel, isd[1] if isd else c.node, '%s::%s.is_default' % (rel, c.name),
+                              '%s hands the value unchanged to self.%s but compares it with the DEFAULT itself: the comparison the wrapped type specialises (%s) is bypassed, so a value '
+                              'equal to the DEFAULT in another spelling (BIT STRING with trailing zero bits) is encoded instead of omitted (X.690 11.5)'
+                              % (c.name, handed[0], ', '.join(k.qname for k in special)), stmt='wrapper is_default')
+    if nwrap < 1:
+        raise AnalysisError('C03.R3: no transparent wrapper class found in ber/der (ExplicitTag)')
+
     # ---- R4
     n4 = 0
     for kind in STRINGISH:
@@ -460,3 +494,10 @@ class SetOf(ArrayType):
 
     def __init__(self, name, element_type):""")]),
 ]
+
+MUTANTS.append(dict(name='ExplicitTag keeps the DEFAULT itself and compares with ==', file=BER,
+                    old="""    def is_default(self, value):
+        return self.inner.is_default(value)
+""", new="""    def is_default(self, value):
+        return self.inner.default is not None and value == self.inner.default
+""", expect='C03.R3'))
